@@ -441,6 +441,84 @@ def pred_num_tp(case, ctx):
     return nt
 
 
+
+# ------------------------------------------------------ 7. long alternating paths (many notes)
+
+@st.composite
+def long_chain_case(draw):
+    """Hundreds to thousands of repeated notes 80 ms apart; the estimate sits 40 ms after the reference, so every estimated note is within
+    the default 50 ms of two reference notes.  The reference is listed block-wise latest-first (notes need not be sorted), which is the
+    order on which a first-fit start is wrong everywhere and the maximum matching needs one alternating path through a whole block."""
+    blocks = draw(st.lists(st.sampled_from([30, 150, 400, 700, 990, 1010, 1100, 1500, 2200]), min_size=1, max_size=3))
+    if sum(blocks) > 3000:
+        blocks = blocks[:1]
+    return {"blocks": blocks, "reverse": draw(st.sampled_from([True, True, True, False])), "entry": draw(st.sampled_from(["onsets", "notes", "prf", "evaluate", "graph"]))}
+
+
+def pred_long_chain(case, ctx):
+    n = sum(case["blocks"])
+    est_on = 1.0 + 0.08 * np.arange(n)
+    ref_on = est_on - 0.04
+    order = []
+    start = 0
+    for b in case["blocks"]:
+        # within a block the last estimate must have a single partner: leave a gap after each block
+        idx = list(range(start, start + b))
+        order += idx[::-1] if case["reverse"] else idx
+        start += b
+    gap = np.zeros(n)
+    for k, b in enumerate(np.cumsum(case["blocks"])[:-1]):
+        gap[b:] += 1.0                      # one second of silence between blocks
+    est_on, ref_on = est_on + gap, ref_on + gap
+    ref_on = ref_on[order]
+    ref = np.c_[ref_on, ref_on + 0.05]
+    est = np.c_[est_on, est_on + 0.05]
+    pit = np.full(n, 440.0)
+    entry = case["entry"]
+    if entry == "graph":
+        g = {}
+        for j in range(n):
+            g[j] = [i for i in range(n) if abs(ref_on[i] - est_on[j]) <= 0.05 + 1e-9] if n <= 400 else None
+        if n > 400:
+            # same adjacency, built without the n^2 scan: estimate j is 40 ms after reference (sorted) j and 40 ms before j+1 of its block
+            pos = {o: i for i, o in enumerate(order)}
+            ends = set(int(b) - 1 for b in np.cumsum(case["blocks"]))
+            for j in range(n):
+                nb = [pos[j]] + ([pos[j + 1]] if j not in ends else [])
+                g[j] = sorted(nb)
+        m = ctx.call(util._bipartite_match, g)
+        pairs = [(v, u) for v, u in m.items()]
+    elif entry == "onsets":
+        pairs = ctx.call(transcription.match_note_onsets, ref, est)
+    elif entry == "notes":
+        pairs = ctx.call(transcription.match_notes, ref, pit, est, pit.copy(), offset_ratio=None)
+    elif entry == "prf":
+        p, r, f, _ = ctx.call(transcription.precision_recall_f1_overlap, ref, pit, est, pit.copy())
+        if not (p == r == f == 1.0):
+            raise Violation("precision_recall_f1_overlap = %r on %d notes that can all be matched (blocks %r)" % ((p, r, f), n, case["blocks"]))
+        pairs = None
+    else:
+        sc = ctx.call(transcription.evaluate, ref, pit, est, pit.copy())
+        for k in ("Precision", "Recall", "Onset_Precision", "Onset_Recall", "Precision_no_offset"):
+            if sc[k] != 1.0:
+                raise Violation("transcription.evaluate %s = %r on %d notes that can all be matched (blocks %r)" % (k, sc[k], n, case["blocks"]))
+        pairs = None
+    if pairs is not None:
+        if len(pairs) != n:
+            raise Violation("%s: %d pairs for %d notes although a perfect matching exists by construction (blocks %r)" % (entry, len(pairs), n, case["blocks"]))
+        rs, es = [int(a) for a, _ in pairs], [int(b) for _, b in pairs]
+        if len(set(rs)) != n or len(set(es)) != n:
+            raise Violation("%s: an item is matched more than once" % entry)
+        bad = [(r_, e_) for r_, e_ in zip(rs, es) if not abs(ref_on[r_] - est_on[e_]) <= 0.05 + 1e-9]
+        if bad:
+            raise Violation("%s: pair %r is further apart than the onset tolerance" % (entry, bad[0]))
+    deep = case["reverse"] and max(case["blocks"]) > 1000
+    if deep:
+        ctx.event("alternating_path_longer_than_1000")
+    ctx.event("entry:" + entry)
+    return case["reverse"] and max(case["blocks"]) >= 150
+
+
 SUBPROPS = [
     SubProp("graphs_exhaustive", pred_graph, enum=enum_graphs, shards=(8, 16), exhaustive=True,
             rule="every bipartite graph up to the size bound x insertion orders; NT = greedy first-fit sub-optimal"),
@@ -454,4 +532,8 @@ SUBPROPS = [
             rule="NT = both sides non-empty and (greedy sub-optimal, onset distance exactly on the tolerance, or duplicate notes)"),
     SubProp("num_true_positives", pred_num_tp, strategy=tp_case, n=(1000, 20000), shards=(1, 4), floor=0.2,
             rule="NT = a frame with 0 < TP < min(n_ref, n_est) or chroma TP > raw TP"),
+    SubProp("long_alternating_paths", pred_long_chain, strategy=long_chain_case, n=(40, 600), shards=(8, 16), floor=0.3,
+            rule="30..3000 repeated notes whose maximum matching needs one alternating path through a whole block (reference listed latest-first), through "
+                 "_bipartite_match, match_note_onsets, match_notes, precision_recall_f1_overlap and evaluate; a perfect matching exists by construction; "
+                 "NT = block of >= 150 notes in the adversarial order"),
 ]
